@@ -94,7 +94,8 @@ func (o *Operations) Move(from string, to string) error {
 			return err
 		}
 
-		hdr.Size = 0 // Don't try to seek after the record
+		hdr.Size = 0               // Don't try to seek after the record
+		hdr.Format = tar.FormatPAX // The STFS records below need PAX, whatever format the indexed header was read as
 		hdr.Name = path.Join(to, strings.TrimPrefix(strings.TrimPrefix(dbhdr.Name, "/"), strings.TrimPrefix(from, "/")))
 		hdr.PAXRecords[records.STFSRecordVersion] = records.STFSRecordVersion1
 		hdr.PAXRecords[records.STFSRecordAction] = records.STFSRecordActionUpdate
